@@ -21,6 +21,14 @@ CONFIGS = [
                                   'cisco_multi_session': False, 'add_path': None, 'afi_safi': [[1, 1]]}},
     {'hold_time': 30, 'caps': {'four_bytes_as': True, 'route_refresh': False, 'add_path': 3,
                                'afi_safi': [[1, 1], [1, 128]], 'ext_nexthop': [[1, 1, 2]]}},
+    # a 4-octet local AS whose capability dictionary does not ask for the capability, and the largest 2-octet AS
+    {'local_as': 4200000001, 'remote_as': 4200000002,
+     'caps': {'four_bytes_as': False, 'route_refresh': True, 'cisco_route_refresh': True, 'enhanced_route_refresh': True,
+              'graceful_restart': False, 'cisco_multi_session': False, 'add_path': None, 'afi_safi': [[1, 1]]}},
+    {'local_as': 65535, 'remote_as': 65534},
+    {'local_as': 65535, 'remote_as': 65534,
+     'caps': {'four_bytes_as': False, 'route_refresh': True, 'cisco_route_refresh': False, 'enhanced_route_refresh': False,
+              'graceful_restart': False, 'cisco_multi_session': False, 'add_path': None, 'afi_safi': [[1, 1]]}},
 ]
 
 
@@ -239,6 +247,41 @@ def run(seed, tier, driver):
         if not ok:
             break
     res.stats.hist['state_event_matrix_cells'] = len(allhit)
+    # scripted sessions, every configuration: each OPEN variant, then KEEPALIVE, then each message of the pool, then every
+    # timer that is due is fired (so that what a message did to the timers shows), then one more KEEPALIVE
+    for conf in CONFIGS:
+        full = dict(S.DEFAULT_CFG); full.update(conf)
+        pool = SG.message_pool(full['remote_as'])
+        opens = [(l, b) for l, b in pool if l in ('open_ok', 'open_nocaps', 'open_hold0', 'open_hold3', 'open_hold65535')]
+        follow = [(l, b) for l, b in pool if not l.startswith('open') and not l.startswith('bad_')]
+        if tier == 'quick':
+            opens = opens[:1] + r.sample(opens[1:], 2)
+        for ol, ob in opens:
+            for fl, fb in follow:
+                p = Pair(conf, driver, res)
+                p.step({'k': 'boot'})
+                p.step({'k': 'connok', 'c': 0})
+                p.step({'k': 'chunk', 'c': 0, 'hex': ob.hex()})
+                if not p.sim.enabled({'k': 'chunk', 'c': 0}):
+                    continue
+                p.step({'k': 'chunk', 'c': 0, 'hex': SG.KEEPALIVE.hex()})
+                if p.last['state'] != 'ESTABLISHED' or not p.sim.enabled({'k': 'chunk', 'c': 0}):
+                    continue
+                o = p.step({'k': 'chunk', 'c': 0, 'hex': fb.hex()})
+                was_update = fb[18] == 2
+                for _ in range(4):
+                    due = [S.TIMER_NAMES.get(getattr(c.func, '__name__', None)) for c in p.sim.world.due()]
+                    due = [d for d in due if d]
+                    if not due:
+                        break
+                    o = p.step({'k': 'fire', 't': due[0]})
+                if was_update and o['state'] != 'ESTABLISHED' and not any(x[0] == 'unmodelled' for x in o['outs']):
+                    res.fail('C10', 'an UPDATE (%s) tore down an Established session (directly or through the timers it touched)' % fl,
+                             {'cfg': conf, 'events': list(p.trace)}, key='update-teardown')
+                if p.sim.enabled({'k': 'chunk', 'c': 0}):
+                    p.step({'k': 'chunk', 'c': 0, 'hex': SG.KEEPALIVE.hex()})
+                res.stats.case(('script', jdump(conf), ol, fl), sample=None)
+                res.stats.hit('script_' + fl.split('_')[0])
     nwalks = 150 if tier == 'quick' else 6000
     for i in range(nwalks):
         conf = r.choice(CONFIGS)
